@@ -187,7 +187,9 @@ func (r *runner) submitMutant(clause, detail string, s spec, deciding bool, pre,
 	if pre != nil {
 		pre(ms)
 	}
+	started := time.Now()
 	ok, text, err := r.env.SendTx(ptx)
+	slow := time.Since(started) > 1500*time.Millisecond
 	if post != nil {
 		post(ms)
 	}
@@ -200,6 +202,15 @@ func (r *runner) submitMutant(clause, detail string, s spec, deciding bool, pre,
 	h := mpenv.H(ptx)
 	entered := ok || (after[h] && !before[h]) || len(after) != len(before)
 	key := clause
+	if slow {
+		// watchdog: the pool waits at most 2 s for the nonce / header responders and then falls back to defaults;
+		// on an overloaded machine such a submission says nothing about the admission rules
+		r.out.Observed["discarded-slow:"+clause] = "submission took longer than 1.5 s"
+		if entered {
+			r.env.DelTxList([][]byte{[]byte(h)})
+		}
+		return
+	}
 	if !deciding {
 		r.out.Observed[clause+":"+detail] = fmt.Sprintf("ok=%v %s", ok, text)
 		if entered {
